@@ -581,6 +581,16 @@ class Executor:
             return getattr(obj, step["meth"]), (type(obj).__name__, step["meth"])
         return self.w.resolve(step["fn"]), (None, step["fn"])
 
+    def _arg(self, spec):
+        """Build one argument; {"gen": "result", "of": i, "pick": j} hands over (element j of)
+        the value an earlier step of this run returned - dataflow between library calls."""
+        if isinstance(spec, dict) and spec.get("gen") == "result":
+            v = self.values.get(spec["of"])
+            if spec.get("pick") is not None and isinstance(v, (tuple, list)):
+                v = v[spec["pick"]]
+            return v
+        return self.w.build_arg(spec)
+
     def run_op(self, i, step, rng_state=None, record_funcs=False):
         """Execute one call/fn/bad step; returns the record."""
         w = self.w
@@ -588,7 +598,7 @@ class Executor:
         rec = {"i": i, "k": step["k"], "seq_invoke": self.seq}
         self.seq += 1
         w.refresh_seams()
-        args = [w.build_arg(s) for s in step.get("args", [])]
+        args = [self._arg(s) for s in step.get("args", [])]
         # a client that keeps one buffer and refills it in place between calls: the SAME
         # ndarray object is handed to the library again with new contents
         for j, sp in enumerate(step.get("args", [])):
@@ -601,7 +611,7 @@ class Executor:
                     args[j] = old
                 else:
                     self.buffers[key] = args[j]
-        kwargs = {k: w.build_arg(s) for k, s in (step.get("kwargs") or {}).items()}
+        kwargs = {k: self._arg(s) for k, s in (step.get("kwargs") or {}).items()}
         if step.get("readonly"):
             for a in list(args) + list(kwargs.values()):
                 if isinstance(a, np.ndarray):
@@ -712,9 +722,36 @@ class Executor:
                 rec["k"] = "repeat"
                 rec["of"] = step["of"]
                 states[i] = self._st0
+            elif k == "reissue":
+                # the same call from ANOTHER state of the shared stream (the original state
+                # advanced by `shift` draws): a routine may consume the stream, never reset it
+                src = dict(self.trace["steps"][step["of"]])
+                src.pop("fault", None)
+                np.random.set_state(states[step["of"]])
+                self.w._orig_randn(int(step.get("shift", 17)))
+                rec = self.run_op(i, src)
+                rec["k"] = "reissue"
+                rec["of"] = step["of"]
+                states[i] = self._st0
             elif k in ("call", "fn", "bad"):
                 rec = self.run_op(i, step)
                 states[i] = self._st0
+                ar = self.trace.get("auto_reissue")
+                if ar and k in ("call", "fn") and not step.get("fault") and rec["ok"] == "ret" \
+                        and rec["rng_before"] != rec["rng_after"] \
+                        and not any(isinstance(a, dict) and a.get("gen") == "result" for a in step.get("args", [])) \
+                        and (k == "fn" or (i * 2654435761 + int(self.trace.get("seed") or 0)) % 100 < 100 * float(ar)):
+                    # the op touched the shared stream: run it once more from a shifted state and
+                    # record where the stream ends up (a consumer moves on, a re-seeder collapses)
+                    keep_val, keep_args, keep_draws = self.values.get(i), self.argvals.get(i), self.draws.get(i)
+                    after = np.random.get_state()
+                    np.random.set_state(states[i])
+                    self.w._orig_randn(11)
+                    r2 = self.run_op(i, step)
+                    rec["auto_reissue"] = {"rng_before": r2["rng_before"], "rng_after": r2["rng_after"]}
+                    self.values[i], self.argvals[i], self.draws[i] = keep_val, keep_args, keep_draws
+                    np.random.set_state(after)
+                    self._st0 = states[i]
             elif k == "sweep":
                 rec = self._sweep(i, step, hooks, viol)
             else:
@@ -867,8 +904,13 @@ def reference_eval(world, req):
         cls = world.resolve(req["cls"])
         with contextlib.redirect_stdout(io.StringIO()):
             ex.objs[step["obj"]] = cls(**req.get("cfg", {}))
-    if step["k"] == "repeat":
+    if step["k"] in ("repeat", "reissue"):
         step["k"] = "call" if "obj" in step else "fn"
-    rec = ex.run_op(0, step, rng_state=req.get("rng_state"))
+    # producers of `result` arguments run first, each from the RNG state it had in the run
+    for pre in req.get("prelude") or []:
+        pstep = dict(pre["step"])
+        pstep.pop("fault", None)
+        ex.run_op(pre["index"], pstep, rng_state=pre.get("rng_state"))
+    rec = ex.run_op(10 ** 6, step, rng_state=req.get("rng_state"))
     return {"ok": rec["ok"], "exc": rec.get("exc"), "digest": rec.get("digest"),
             "rng_after": rec["rng_after"], "summary": rec.get("summary")}
